@@ -353,7 +353,7 @@ def _apply(cls):
     return run
 
 
-# the rewrites every check must survive (a failure fails the thorough tier); hoist-arguments is measured only
-GATED = {"unnest-else", "nest-else", "split-guards", "reverse-keywords"}
+# the rewrites every check must survive (a failure fails the thorough tier)
+GATED = {"unnest-else", "nest-else", "split-guards", "reverse-keywords", "hoist-arguments"}
 EXTRA.update({"unnest-else": _apply(_ElseUnnester), "nest-else": _apply(_ElseNester), "split-guards": _apply(_GuardSplitter),
               "reverse-keywords": _apply(_KwReverser), "hoist-arguments": _apply(_ArgHoister)})
